@@ -76,6 +76,16 @@ func runC01(c *Ctx) {
 		c02R3(c, g)
 	}
 	c15R2(c, "C01.R1")
+	// what a node advertises is what it has registered (settled routing information is right at the source)
+	p := c.P
+	upstreams := p.Field(upPkg, "loadBalancer", "upstreams")
+	localUp := p.Field(upPkg, "LoadBalancedManager", "localUpstreams")
+	muF := p.Field(upPkg, "LoadBalancedManager", "mu")
+	mgr := p.NamedType(upPkg, "LoadBalancedManager")
+	if upstreams != nil && localUp != nil && muF != nil && mgr != nil {
+		c05R1(c, upstreams, localUp, mgr)
+		c05R4(c, upstreams, localUp, muF, mgr)
+	}
 }
 
 func c01R1(c *Ctx) {
@@ -427,7 +437,9 @@ func c01R3(c *Ctx) {
 			}
 		}
 		if good {
-			notEmpty := anyFact(facts, func(f Fact) bool { return cmpFact(f, token.NEQ, func(v ssa.Value) bool { return v == host }, isEmptyStr) })
+			notEmpty := anyFact(facts, func(f Fact) bool {
+				return cmpFact(f, token.NEQ, func(v ssa.Value) bool { return v == host }, isEmptyStr)
+			})
 			notIP := anyFact(facts, func(f Fact) bool {
 				return cmpFact(f, token.EQL, func(v ssa.Value) bool {
 					cl, ok := v.(*ssa.Call)
@@ -480,7 +492,9 @@ func c01R4(c *Ctx) {
 		who    string
 	}{
 		{modPath + "/server/upstream.NewNodeUpstream", func(f *ssa.Function) bool { return strings.HasSuffix(topFn(f).String(), "LoadBalancedManager).Select") }, "LoadBalancedManager.Select"},
-		{modPath + "/server/upstream.NewConnUpstream", func(f *ssa.Function) bool { return strings.HasSuffix(topFn(f).String(), "upstream.Server).upstreamRoute") }, "the upstream handler"},
+		{modPath + "/server/upstream.NewConnUpstream", func(f *ssa.Function) bool {
+			return strings.HasSuffix(topFn(f).String(), "upstream.Server).upstreamRoute")
+		}, "the upstream handler"},
 	} {
 		n := 0
 		for _, f := range p.ModFuncs {
